@@ -127,7 +127,7 @@ def run_jobs(ctx, jobs, fzf, fzf_oracle, race, label):
         # bounds for the deviation StaleChunkCache: a result mixed chunk-wise from two configurations lies between their
         # intersection and their union
         for e in evs:
-            if e["ev"] == "reset" and e["pcfg"] >= 0:
+            if e["ev"] in ("reset", "pick") and e.get("pcfg", -1) >= 0 and "cfg" in e:
                 a = rawids.get((e["q"], e["lo"], e["count"], e["sort"], e["cfg"]))
                 b = rawids.get((e["q"], e["lo"], e["count"], e["sort"], e["pcfg"]))
                 if a is not None and b is not None:
